@@ -445,7 +445,7 @@ Proof.
   assert (Hd : digest no_argon (GSha 1 true) long_pw = Some (sha_of 1 long_pw)) by (cbn [digest]; reflexivity).
   assert (Hw : wf (GSha 1 true) = true) by (vm_compute; reflexivity).
   specialize (F no_argon (GSha 1 true) long_pw (sha_of 1 long_pw) long_pw Ho Hw Hd).
-  destruct long_pw_refutes as [H1 H2]. rewrite H1, H2 in F. discriminate.
+  destruct long_pw_refutes as [H1 H2]. rewrite H1, H2 in F. clear H1 H2 Hd Hw. discriminate F.
 Qed.
 
 (* ------------------------------------------------------------------ bridge: agreement transfers the property *)
